@@ -28,7 +28,6 @@ Section LND.
   Variables (lmul ldiv : L -> L -> L) (labs : L -> L) (linf : L).
   Variable rnd : L -> Z.                 (* round(loss, 8) / 1e-8 *)
   Variable lltb : L -> L -> bool.        (* Python's < on losses, for max() *)
-  Variable leqb : L -> L -> bool.        (* Python's == on losses *)
 
   Variable d : nat.                      (* dimension *)
   Variable corners : list nat.           (* _bounds_points, sorted; ids of the corner points *)
@@ -110,9 +109,6 @@ Section LND.
     | [] => [e]
     | x :: q' => if key_leb x e then x :: queue_add e q' else e :: q
     end.
-  Definition entry_eqb (a b : entry) : bool :=
-    let '(l1, s1, u1) := a in let '(l2, s2, u2) := b in
-    leqb l1 l2 && simplex_eqb s1 s2 && option_eqb simplex_eqb u1 u2.
 
   (* ---------------- setters ---------------- *)
   Definition set_err (s : lnd) (e : err) : lnd :=
@@ -134,6 +130,9 @@ Section LND.
   Definition set_choose (s : lnd) (x : list nat) : lnd :=
     mkL (l_data s) (l_pend s) (l_tri s) (l_losses s) (l_subs s) (l_queue s) (l_tris s) x (l_err s) (l_ok s).
   Definition failed (s : lnd) : bool := match l_err s with Some _ => true | None => false end.
+
+  Definition wf_simplices (n : nat) (ss : list simplex) : bool :=
+    forallb (fun sp => forallb (fun v => v <? n) sp) ss.
 
   Section WithEnv.
     Variable E : env.
@@ -206,6 +205,8 @@ Section LND.
           | [] => s
           | None :: r => set_tris s r
           | Some ss :: r =>
+              if negb (wf_simplices (length (l_data s)) ss) then set_err (set_tris s r) EOther   (* never: scipy indexes the data *)
+              else
               let t := init (l_data s) ss in
               update_losses (set_tri (set_tris s r) (Some t)) [] (simplices t)
           end
@@ -330,9 +331,7 @@ Section LND.
     Definition requeue (s : lnd) (sp : simplex) : lnd :=
       match sassoc sp (l_losses s) with
       | None => s
-      | Some loss =>
-          let item := (loss, sp, None) in
-          if existsb (entry_eqb item) (l_queue s) then s else set_queue s (queue_add item (l_queue s))
+      | Some loss => set_queue s (queue_add (loss, sp, None) (l_queue s))
       end.
     Definition remove_unfinished (s : lnd) : lnd :=
       let s := if repaired then fold_left requeue (skeys (l_subs s)) s else s in
@@ -376,10 +375,7 @@ Section LND.
      tell is a simplex of the triangulation (LearnerND checks _simplex_exists),
      located simplices are simplices of the triangulation, the recorded initial
      triangulations only use the data points *)
-  Definition wf_simplices (n : nat) (ss : list simplex) : bool :=
-    forallb (fun sp => forallb (fun v => v <? n) sp) ss.
-  Definition legal_env (s : lnd) (E : env) : bool :=
-    forallb (fun o => match o with Some ss => wf_simplices (length (l_data s) + 1) ss | None => true end) (e_tris E).
+  Definition legal_env (s : lnd) (E : env) : bool := forallb (e_inb E) corners.
   Definition legal_op (s : lnd) (o : op) : bool :=
     match o with
     | Tell p E =>
